@@ -115,9 +115,9 @@ CORPUS = [
 ]
 
 
-def correspondence(ctx):
+def correspondence(ctx, n=None):
     rng = random.Random(ctx.seed * 1000003 + 12)
-    n = ctx.n(1200, 20000)
+    n = ctx.n(1200, 20000) if n is None else n
     scripts = [list(s) for s in CORPUS] + [gen_script(rng, rng.randrange(3, 16 if rng.random() < 0.8 else 40)) for _ in range(n)]
     dis, ops, distinct = [], {}, set()
     for s in scripts:
